@@ -33,4 +33,17 @@ def run(ctx):
     ev = [(ctx.seed * 131 + 0 + i * 48) % 1152 for i in range(1 if ctx.tier == "quick" else 24)]
     fam = fam + [("evade-%d" % sl, "Families_pos.cfg", {"VERIF_FAMILY": "evade", "VERIF_VARIANT": "x", "VERIF_FILE": 0, "VERIF_SLICE": sl, "VERIF_SLICES": 1152}) for sl in ev]
     board_pipeline(ctx, bfs, walks, fam)
+    # the single-move questions (is_legal, move_new, move_mut, move_into) against the generator's own list over all
+    # 20480 triples on sampled positions of seeded walks (equalities between observations of the implementation)
+    from vlib import NCPU
+    shards = max(1, NCPU - 2)
+    sw = ctx.pmap(lambda i: ctx.harness(["sweep-twin", "--seed", ctx.seed + 41, "--shard", i, "--walks", 40 if ctx.tier == "quick" else 600,
+                                          "--plies", 60, "--probe-every", 12]), list(range(shards)))
+    probed = 0
+    for r in sw:
+        ctx.absorb(r)
+        if r["summary"]:
+            probed += r["summary"]["counts"].get("probed_positions", 0)
+    ctx.cov["evaluations"] += probed * 20480
+    ctx.cov["steps"].append({"step": "is_legal / checked operations vs generator sweep", "positions_probed": probed, "triples": probed * 20480})
     sys_model_check(ctx, allr, 1 if ctx.tier == "quick" else 2)
